@@ -364,6 +364,7 @@ func c14(run *ev.Run) int {
 	c14ReadLimit(run, srv)
 	c14DoFails(run)
 	c14HandlerReadLimit(run)
+	c14EmptyResponses(run)
 	c14PlainHTTP1Peer(run)
 	run.Set("distinct_interleaving_signatures", len(signatures))
 	run.Count("interleaving.signatures", int64(len(signatures)))
@@ -971,4 +972,55 @@ func c14PlainHTTP1Peer(run *ev.Run) {
 		peer.Close()
 	}
 	c14Census(run, "c14/plain-http1-peer/census", []string{"c14/plain-http1-peer"})
+}
+
+// c14EmptyResponses: responses whose body is empty on the wire (a zero-valued
+// message below the handler's compression threshold, so Content-Length is 0)
+// travel through a transport that decorates every response body; the
+// decorator's Close must still be called - that is where such middleware
+// (tracing, in-flight limits) finishes its bookkeeping.
+func c14EmptyResponses(run *ev.Run) {
+	srv := svc.NewServer(connect.WithCompressMinBytes(64))
+	defer srv.Close()
+	for _, h2 := range []bool{false, true} {
+		for _, p := range svc.Protocols {
+			for _, kind := range []svc.Kind{svc.Unary, svc.ClientStream, svc.ServerStream} {
+				for _, shape := range []string{"zero-valued-message", "small-message"} {
+					key := fmt.Sprintf("c14/empty-response/h2=%v/%s/%s/%s", h2, p, kind, shape)
+					if !run.Want(key) {
+						continue
+					}
+					msg := &gen.Msg{}
+					if shape == "small-message" {
+						msg = &gen.Msg{Id: 42}
+					}
+					prog := &svc.Program{Steps: []svc.Step{{Op: "recvall"}, {Op: "send", Msg: msg}}}
+					call := srv.Reg.New("c14e", prog)
+					cs := srv.Clients(h2, svc.ProtoOpts(p, "proto")...)
+					var cl *svc.CLog
+					ok, dump := watchdog(30*time.Second, func() {
+						cl = cs.Do(context.Background(), kind, call.ID, nil, []*gen.Msg{{Id: 1}})
+					})
+					run.Count("cases", 1)
+					run.Eval(fmt.Sprintf("empty-response|%v|%s|%s|%s", h2, p, kind, shape))
+					ex := cs.Tap.Get(call.ID)
+					detail := map[string]any{"case": key}
+					if !ok {
+						run.Violation(key+"/hang", "call did not return", trunc(dump, 20000))
+					} else if cl.Err != nil {
+						detail["client_err"] = errStr(cl.Err)
+						run.Violation(key+"/failed", "an ordinary call with a tiny response failed: "+errStr(cl.Err), detail)
+					} else if ex != nil && ex.Status != 0 {
+						run.Count("body.close.checked", 1)
+						detail["response_body_bytes"] = ex.RespBody.Len()
+						if ex.Closes() < 1 {
+							run.Violation(key+"/body-not-closed", "the call returned but the HTTP response body (as decorated by the transport) was never closed", detail)
+						}
+					}
+					srv.Reg.Drop(call)
+					cs.Tap.Forget(call.ID)
+				}
+			}
+		}
+	}
 }
